@@ -7,7 +7,11 @@ E == Log[l]
 T(j) == [s |-> j.s, l |-> j.l]
 Ev(b) == b = TRUE
 TInit == l = 1 /\ npairs = 0
-TStep == /\ l <= Len(Log) /\ l' = l + 1 /\ npairs' = npairs + 1
+\* side decision of a border split whose pivot (first tuple of the new right node) is e: the new tuple t stays left iff t < e;
+\* afterwards every key is found by get and the scan lists each exactly once
+TSplit == /\ l <= Len(Log) /\ l' = l + 1 /\ npairs' = npairs + 1 /\ E.op = "split"
+          /\ Ev(E.split /\ E.left = TupLess(T(E.t), T(E.e)) /\ E.getok /\ E.total = 16)
+TStep == /\ l <= Len(Log) /\ l' = l + 1 /\ npairs' = npairs + 1 /\ E.op = "pair"
          /\ LET t == T(E.t) e == T(E.e) less == TupLess(t, e) same == t = e IN
             Ev(/\ E.kt_less = less /\ E.kt_greater = TupLess(e, t) /\ E.kt_eq = same
                /\ E.hit = same /\ E.hit_nolock = same
@@ -15,7 +19,7 @@ TStep == /\ l <= Len(Log) /\ l' = l + 1 /\ npairs' = npairs + 1
                /\ (e.l > 0 => E.route_left = less)
                /\ (e.l > 0 /\ t.l > 0 /\ ~same => E.ins_before = less /\ E.ins_shape)
                /\ (~same => E.sorted_n = 2 /\ E.sorted_first = (IF less THEN 0 ELSE 1)))
-TSpec == TInit /\ [][TStep]_<<l, npairs>>
+TSpec == TInit /\ [][TStep \/ TSplit]_<<l, npairs>>
 TView == l
 Accepted == TLCGet("stats").diameter - 1 = Len(Log)
 ====
